@@ -3,7 +3,7 @@
    the stationary point and reports SUCCESS after one iteration (provided that step lowers the cost, which it does for a
    convex quadratic away from the minimum; that last fact is a hypothesis here). *)
 From Coq Require Import Reals Lra List Bool ZArith Lia.
-From Adept Require Import Scalar Minim MinimProofs ExprReal MinimReal.
+From Adept Require Import Scalar Minim MinimProofs RealOps MinimReal.
 Import ListNotations.
 Local Open Scope R_scope.
 
